@@ -1,0 +1,19 @@
+package generator
+
+import (
+	"fmt"
+	"github.com/aml-org/amf-custom-validator/internal/misc"
+	"strings"
+)
+
+// regoStringSet renders the values as a Rego set of string literals
+func regoStringSet(values []string) string {
+	if len(values) == 0 {
+		return "set()" // {} would be an empty object
+	}
+	acc := make([]string, len(values))
+	for i, v := range values {
+		acc[i] = misc.RegoString(v)
+	}
+	return fmt.Sprintf("{ %s}", strings.Join(acc, ","))
+}
